@@ -21,6 +21,9 @@ import QEProofs.Lemmas.C08Jac
 import QEProofs.Lemmas.C08JacDeriv
 import QEProofs.Lemmas.C08Gauss
 import QEProofs.Lemmas.C08Orth
+import QEProofs.Lemmas.C08LagOrth
+import QEProofs.Lemmas.C08HermOrth
+import QEProofs.Lemmas.C08JacOrth
 import Mathlib.Tactic.IntervalCases
 import Mathlib.Algebra.Polynomial.Eval.Degree
 import Mathlib.Analysis.Real.Sqrt
@@ -721,6 +724,37 @@ theorem equi_weights (n : Nat) (hn : 0 < n) (a b : List K) :
 
 example : equiWeights 4 [(0 : Rat), 1] [2, 4] = [3 / 2, 3 / 2, 3 / 2, 3 / 2] := by decide +kernel
 
+/-- **qnwequi: every node lies inside the box**, for every number of points, every dimension and
+    every sequence kind: the routine maps rows `t` of fractional parts (`0 ≤ t_k < 1`; for the N, W, H
+    sequences `x − fix(x)` of a non-negative `x`, for R the uniform draws) by `a + t·(b − a)`; if
+    `a_k ≤ b_k` the result has one entry per dimension and `a_k ≤ node_k ≤ b_k`, with `node_k < b_k`
+    when `a_k < b_k`. -/
+theorem equi_nodes_in_box (a b : List K) (T : List (List K))
+    (hab : ∀ k, k < a.length → a.getD k 0 ≤ b.getD k 0)
+    (hT : ∀ t ∈ T, ∀ k, k < a.length → 0 ≤ t.getD k 0 ∧ t.getD k 0 < 1) :
+    (equiNodes a b T).length = T.length ∧
+    ∀ row ∈ equiNodes a b T, row.length = a.length ∧
+      ∀ k, k < a.length → a.getD k 0 ≤ row.getD k 0 ∧ row.getD k 0 ≤ b.getD k 0 ∧
+        (a.getD k 0 < b.getD k 0 → row.getD k 0 < b.getD k 0) := by
+  refine ⟨by simp [equiNodes], ?_⟩
+  intro row hrow
+  unfold equiNodes at hrow
+  obtain ⟨t, ht, rfl⟩ := List.mem_map.mp hrow
+  refine ⟨by simp, ?_⟩
+  intro k hk
+  obtain ⟨t0, t1⟩ := hT t ht k hk
+  have hd := hab k hk
+  simp only [List.getD_eq_getElem?_getD, List.getElem?_map, List.getElem?_range hk, Option.map_some,
+    Option.getD_some] at *
+  refine ⟨?_, ?_, ?_⟩
+  · nlinarith
+  · nlinarith
+  · intro hlt; nlinarith
+
+/-- non-vacuity: two Weyl-type rows of fractional parts in the box `[0,2] × [1,4]` -/
+example : equiNodes [(0 : Rat), 1] [2, 4] [[1 / 2, 1 / 3], [0, 3 / 4]] = [[1, 2], [0, 13 / 4]] := by
+  decide +kernel
+
 /-! ## The Legendre recurrence of `_qnwlege1` -/
 
 /-- **The inner loop of `_qnwlege1` computes consecutive Legendre values, for every n.**
@@ -896,6 +930,69 @@ theorem gamma_step_is_newton (a z : K) (n : Nat) (hz : z ≠ 0) :
 
 example : lagLoop (1 / 2 : Rat) 2 2 1 1 0 = (-9 / 8, -1 / 2) := by decide +kernel
 
+/-- **The recurrence-defined Laguerre polynomials of `_qnwgamma1` are orthogonal for the gamma law.**
+    `Λ` is any linear functional on `K[X]` obeying the integration-by-parts rule of the weight
+    `x^a e^{−x}` on `[0, ∞)`: `Λ(X f' + (a + 1 − X) f) = 0` for every polynomial `f` (`a` = shape − 1).
+    Then `Lₙ` satisfies Laguerre's equation `X Lₙ'' + (a+1−X) Lₙ' + n Lₙ = 0`, has degree exactly `n`, and
+    is orthogonal to every `Lₘ`, `m ≠ n`, and to **every** polynomial of degree `< n`. -/
+theorem laguerre_orthogonality (a : K) (Λ : Polynomial K →ₗ[K] K)
+    (hIBP : ∀ f : Polynomial K,
+      Λ (Polynomial.X * Polynomial.derivative f + (Polynomial.C a + 1 - Polynomial.X) * f) = 0) (n : Nat) :
+    (laguerrePoly a n).degree = (n : WithBot Nat) ∧
+    Polynomial.X * Polynomial.derivative (Polynomial.derivative (laguerrePoly a n))
+        + (Polynomial.C a + 1 - Polynomial.X) * Polynomial.derivative (laguerrePoly a n)
+        + (n : Polynomial K) * laguerrePoly a n = 0 ∧
+    (∀ m, n ≠ m → Λ (laguerrePoly a n * laguerrePoly a m) = 0) ∧
+    (∀ q : Polynomial K, q.degree < (n : WithBot Nat) → Λ (laguerrePoly a n * q) = 0) :=
+  ⟨laguerrePoly_degree a n, laguerrePoly_ode a n, fun m h => laguerrePoly_orthogonal a Λ hIBP n m h,
+    fun q hq => laguerrePoly_orth_degree a Λ hIBP n q hq⟩
+
+/-- non-vacuity of `hIBP`: the moment functional of the gamma law with shape `a + 1`, scale 1 —
+    `Λ(c·Xᵏ) = c·Π_{r<k} (a + 1 + r)`, the moments the spec run checks qnwgamma against — obeys it. -/
+theorem gamma_functional_ibp (a : K) :
+    (∀ (k : Nat) (c : K), gammaFunctional a (Polynomial.monomial k c)
+        = c * ∏ r ∈ range k, (a + 1 + (r : K))) ∧
+    (∀ f : Polynomial K, gammaFunctional a
+        (Polynomial.X * Polynomial.derivative f + (Polynomial.C a + 1 - Polynomial.X) * f) = 0) :=
+  ⟨gammaFunctional_monomial a, gammaFunctional_ibp a⟩
+
+/-- … so `laguerre_orthogonality` applies to it: e.g. `E[L₃ L₁] = 0` under gamma(3/2, 1) -/
+example : gammaFunctional (1 / 2 : ℚ) (laguerrePoly (1 / 2) 3 * laguerrePoly (1 / 2) 1) = 0 :=
+  (laguerre_orthogonality (1 / 2 : ℚ) (gammaFunctional (1 / 2)) (gammaFunctional_ibp (1 / 2)) 3).2.2.1 1 (by decide)
+
+/-- **Gauss-Laguerre (qnwgamma, scale 1): degree `2n − 1` from `n` conditions — partial.**  If every
+    node is a root of the `Lₙ` the code's loop evaluates and the rule reproduces `Λ` on polynomials of
+    degree `< n`, then it reproduces `Λ` on **every** polynomial of degree `< 2n`.
+    *Missing*: that the Newton iteration ends at the `n` roots (floating point) and that the weights
+    `factor/(pp·n·p2)` are the interpolatory ones; both are covered by the exact moment check of the
+    spec run only. -/
+theorem gamma_gauss_exactness_partial (a : K) (Λ : Polynomial K →ₗ[K] K)
+    (hIBP : ∀ f : Polynomial K,
+      Λ (Polynomial.X * Polynomial.derivative f + (Polynomial.C a + 1 - Polynomial.X) * f) = 0)
+    (nodes weights : List K) (n : Nat)
+    (hroot : ∀ x ∈ nodes, (laguerrePoly a n).eval x = 0)
+    (hint : ∀ r : Polynomial K, r.degree < (n : WithBot Nat) →
+      quadSum weights nodes (fun t => r.eval t) = Λ r)
+    (p : Polynomial K) (hp : p.degree < ((n + n : Nat) : WithBot Nat)) :
+    quadSum weights nodes (fun t => p.eval t) = Λ p :=
+  gauss_reduction nodes weights n (laguerrePoly a n) (laguerrePoly_degree a n) Λ hroot
+    (fun q hq => laguerrePoly_orth_degree a Λ hIBP n q hq) hint p hp
+
+/-- non-vacuity of the premises: the one-point Gauss-Laguerre rule for the exponential law
+    (`a = 0`): node `1` (the root of `L₁ = 1 − X`), weight `1` -/
+example : (laguerrePoly (0 : ℚ) 1).eval 1 = 0 ∧
+    (∀ r : Polynomial ℚ, r.degree < ((1 : Nat) : WithBot Nat) →
+      quadSum [(1 : ℚ)] [1] (fun t => r.eval t) = gammaFunctional 0 r) := by
+  constructor
+  · simp [laguerrePoly]
+  · intro r hr
+    have hC : r = Polynomial.C (r.coeff 0) := by
+      apply Polynomial.eq_C_of_degree_le_zero
+      have : r.degree < 1 := by simpa using hr
+      exact Nat.WithBot.lt_one_iff_le_zero.mp this
+    rw [hC, ← Polynomial.monomial_zero_left, gammaFunctional_monomial]
+    simp [quadSum, dot]
+
 /-! ## The Jacobi recurrence of `_qnwbeta1` -/
 
 /-- **The inner loop of `_qnwbeta1` computes consecutive Jacobi values, for every n** (`a`, `b` =
@@ -1023,5 +1120,151 @@ example : IsSqrtTable (fun j : Nat => (Real.sqrt (2 / (j : ℝ)), Real.sqrt (((j
     intro j hj
     have h1 : (1 : ℝ) ≤ (j : ℝ) := by exact_mod_cast hj
     exact Real.mul_self_sqrt (div_nonneg (by linarith) (by linarith))
+
+/-- the actual square roots over `ℝ` form a `IsSqrtTable` (named, for the examples below) -/
+theorem real_sqrt_table :
+    IsSqrtTable (fun j : Nat => (Real.sqrt (2 / (j : ℝ)), Real.sqrt (((j : ℝ) - 1) / (j : ℝ)))) where
+  pos1 := by
+    intro j hj
+    have : (0 : ℝ) < (j : ℝ) := by exact_mod_cast hj
+    exact Real.sqrt_pos.mpr (by positivity)
+  sq1 := by
+    intro j hj
+    have : (0 : ℝ) < (j : ℝ) := by exact_mod_cast hj
+    exact Real.mul_self_sqrt (by positivity)
+  nonneg2 := fun j _ => Real.sqrt_nonneg _
+  sq2 := by
+    intro j hj
+    have h1 : (1 : ℝ) ≤ (j : ℝ) := by exact_mod_cast hj
+    exact Real.mul_self_sqrt (div_nonneg (by linarith) (by linarith))
+
+/-- **The orthonormal Hermite functions of `_qnwnorm1` are orthogonal for the weight `e^{−x²}`.**
+    `sq` holds the square roots the code takes (`IsSqrtTable`), `c ≠ 0` is `π^{−1/4}`, and `Λ` is any
+    linear functional obeying the integration-by-parts rule of `e^{−x²}` on the real line,
+    `Λ(f' − 2X f) = 0` for every polynomial `f`.  Then `hₙ` satisfies Hermite's equation
+    `hₙ'' − 2X hₙ' + 2n hₙ = 0`, has degree exactly `n`, and is orthogonal to every `hₘ`, `m ≠ n`, and to
+    **every** polynomial of degree `< n`. -/
+theorem hermite_orthogonality (sq : Nat → K × K) (h : IsSqrtTable sq) (c : K) (hc : c ≠ 0)
+    (Λ : Polynomial K →ₗ[K] K)
+    (hIBP : ∀ f : Polynomial K, Λ (Polynomial.derivative f - 2 * Polynomial.X * f) = 0) (n : Nat) :
+    (hermPoly sq c n).degree = (n : WithBot Nat) ∧
+    Polynomial.derivative (Polynomial.derivative (hermPoly sq c n))
+        - 2 * Polynomial.X * Polynomial.derivative (hermPoly sq c n)
+        + 2 * (n : Polynomial K) * hermPoly sq c n = 0 ∧
+    (∀ m, n ≠ m → Λ (hermPoly sq c n * hermPoly sq c m) = 0) ∧
+    (∀ q : Polynomial K, q.degree < (n : WithBot Nat) → Λ (hermPoly sq c n * q) = 0) :=
+  ⟨hermPoly_degree sq h c hc n, hermPoly_ode sq h c n, fun m hm => hermPoly_orthogonal sq h c Λ hIBP n m hm,
+    fun q hq => hermPoly_orth_degree sq h c hc Λ hIBP n q hq⟩
+
+/-- non-vacuity of `hIBP`: the functional with the moments of the normalised weight `e^{−x²}`
+    (`μ₀ = 1`, `μ₁ = 0`, `μ_{k+2} = (k+1)/2 · μ_k`) obeys it. -/
+theorem gauss_functional_ibp :
+    (∀ (k : Nat) (c : K), hermFunctional (Polynomial.monomial k c) = c * gaussMoment k) ∧
+    (∀ f : Polynomial K, hermFunctional (Polynomial.derivative f - 2 * Polynomial.X * f) = 0) :=
+  ⟨hermFunctional_monomial, hermFunctional_ibp⟩
+
+/-- … so `hermite_orthogonality` applies over `ℝ` with the real square roots -/
+example : hermFunctional
+    (hermPoly (fun j : Nat => (Real.sqrt (2 / (j : ℝ)), Real.sqrt (((j : ℝ) - 1) / (j : ℝ)))) 1 3
+      * hermPoly (fun j : Nat => (Real.sqrt (2 / (j : ℝ)), Real.sqrt (((j : ℝ) - 1) / (j : ℝ)))) 1 1) = 0 :=
+  (hermite_orthogonality _ real_sqrt_table 1 one_ne_zero hermFunctional hermFunctional_ibp 3).2.2.1 1 (by decide)
+
+/-- **Gauss-Hermite (qnwnorm before the `√2` / `√π` rescaling): degree `2n − 1` from `n` conditions —
+    partial.**  If every node is a root of the `hₙ` the code's loop evaluates and the rule reproduces `Λ`
+    on polynomials of degree `< n`, then it reproduces `Λ` on **every** polynomial of degree `< 2n`.
+    *Missing*: that the Newton iteration ends at the `n` roots (floating point) and that the weights
+    `2/pp²` are the interpolatory ones; both are covered by the exact moment check of the spec run only. -/
+theorem norm_gauss_exactness_partial (sq : Nat → K × K) (h : IsSqrtTable sq) (c : K) (hc : c ≠ 0)
+    (Λ : Polynomial K →ₗ[K] K)
+    (hIBP : ∀ f : Polynomial K, Λ (Polynomial.derivative f - 2 * Polynomial.X * f) = 0)
+    (nodes weights : List K) (n : Nat)
+    (hroot : ∀ x ∈ nodes, (hermPoly sq c n).eval x = 0)
+    (hint : ∀ r : Polynomial K, r.degree < (n : WithBot Nat) →
+      quadSum weights nodes (fun t => r.eval t) = Λ r)
+    (p : Polynomial K) (hp : p.degree < ((n + n : Nat) : WithBot Nat)) :
+    quadSum weights nodes (fun t => p.eval t) = Λ p :=
+  gauss_reduction nodes weights n (hermPoly sq c n) (hermPoly_degree sq h c hc n) Λ hroot
+    (fun q hq => hermPoly_orth_degree sq h c hc Λ hIBP n q hq) hint p hp
+
+/-- non-vacuity of the premises: the one-point rule, node `0` (the root of `h₁ ∝ X`), weight `1` -/
+example : (hermPoly (fun j : Nat => (Real.sqrt (2 / (j : ℝ)), Real.sqrt (((j : ℝ) - 1) / (j : ℝ)))) 1 1).eval 0 = 0 ∧
+    (∀ r : Polynomial ℝ, r.degree < ((1 : Nat) : WithBot Nat) →
+      quadSum [(1 : ℝ)] [0] (fun t => r.eval t) = hermFunctional r) := by
+  constructor
+  · simp [hermPoly]
+  · intro r hr
+    have hC : r = Polynomial.C (r.coeff 0) := by
+      apply Polynomial.eq_C_of_degree_le_zero
+      have : r.degree < 1 := by simpa using hr
+      exact Nat.WithBot.lt_one_iff_le_zero.mp this
+    rw [hC, ← Polynomial.monomial_zero_left, hermFunctional_monomial]
+    simp [quadSum, dot, gaussMoment]
+
+/-- **The recurrence-defined Jacobi polynomials of `_qnwbeta1` are orthogonal for the beta law.**  For
+    `a, b > −1` (beta parameters `a+1, b+1 > 0`; the routine works on `z = 1 − 2x ∈ [−1, 1]`), let `Λ` be
+    any linear functional obeying the integration-by-parts rule of the weight `(1−z)^a (1+z)^b`:
+    `Λ((1 − X²) f' + (b − a − (a+b+2) X) f) = 0` for every polynomial `f`.  Then `Pₙ` satisfies Jacobi's
+    equation `(1−X²)Pₙ'' + (b−a−(a+b+2)X)Pₙ' + n(n+a+b+1)Pₙ = 0`, has degree exactly `n`, and is orthogonal
+    to every `Pₘ`, `m ≠ n`, and to **every** polynomial of degree `< n`. -/
+theorem jacobi_orthogonality (a b : K) (ha : -1 < a) (hb : -1 < b) (Λ : Polynomial K →ₗ[K] K)
+    (hIBP : ∀ f : Polynomial K, Λ ((1 - Polynomial.X ^ 2) * Polynomial.derivative f
+        + (Polynomial.C b - Polynomial.C a - (Polynomial.C a + Polynomial.C b + 2) * Polynomial.X) * f) = 0)
+    (n : Nat) :
+    (jacobiPoly a b n).degree = (n : WithBot Nat) ∧
+    (1 - Polynomial.X ^ 2) * Polynomial.derivative (Polynomial.derivative (jacobiPoly a b n))
+        + (Polynomial.C b - Polynomial.C a - (Polynomial.C a + Polynomial.C b + 2) * Polynomial.X)
+          * Polynomial.derivative (jacobiPoly a b n)
+        + (n : Polynomial K) * ((n : Polynomial K) + (Polynomial.C a + Polynomial.C b) + 1) * jacobiPoly a b n = 0 ∧
+    (∀ m, n ≠ m → Λ (jacobiPoly a b n * jacobiPoly a b m) = 0) ∧
+    (∀ q : Polynomial K, q.degree < (n : WithBot Nat) → Λ (jacobiPoly a b n * q) = 0) :=
+  ⟨jacobiPoly_degree a b ha hb n, jacobiPoly_ode a b ha hb n,
+    fun m hm => jacobiPoly_orthogonal a b ha hb Λ hIBP n m hm,
+    fun q hq => jacobiPoly_orth_degree a b ha hb Λ hIBP n q hq⟩
+
+/-- non-vacuity of `hIBP`: the functional with the moments `jacMoment a b` (the recurrence the rule
+    dictates, `μ₀ = 1`) obeys it for `a, b > −1`. -/
+theorem jacobi_functional_ibp (a b : K) (ha : -1 < a) (hb : -1 < b) :
+    (∀ (k : Nat) (c : K), jacFunctional a b (Polynomial.monomial k c) = c * jacMoment a b k) ∧
+    (∀ f : Polynomial K, jacFunctional a b ((1 - Polynomial.X ^ 2) * Polynomial.derivative f
+        + (Polynomial.C b - Polynomial.C a - (Polynomial.C a + Polynomial.C b + 2) * Polynomial.X) * f) = 0) :=
+  ⟨jacFunctional_monomial a b, jacFunctional_ibp a b ha hb⟩
+
+/-- … so `jacobi_orthogonality` applies: e.g. `a = −1/2`, `b = 1/2` (beta(1/2, 3/2)) -/
+example : jacFunctional (-1 / 2 : ℚ) (1 / 2) (jacobiPoly (-1 / 2) (1 / 2) 3 * jacobiPoly (-1 / 2) (1 / 2) 1) = 0 :=
+  (jacobi_orthogonality (-1 / 2 : ℚ) (1 / 2) (by norm_num) (by norm_num) (jacFunctional (-1 / 2) (1 / 2))
+    (jacFunctional_ibp (-1 / 2) (1 / 2) (by norm_num) (by norm_num)) 3).2.2.1 1 (by decide)
+
+/-- **Gauss-Jacobi (qnwbeta in the variable `z = 1 − 2x`): degree `2n − 1` from `n` conditions —
+    partial.**  If every node is a root of the `Pₙ` the code's loop evaluates and the rule reproduces `Λ`
+    on polynomials of degree `< n`, then it reproduces `Λ` on **every** polynomial of degree `< 2n`.
+    *Missing*: that the Newton iteration from the tabulated starting values ends at the `n` distinct roots
+    (it does not for `n = 3`, small `b`, large `a`: the known finding) and that the weights `temp/(pp·p2)`
+    are the interpolatory ones; both are covered by the exact moment check of the spec run only. -/
+theorem beta_gauss_exactness_partial (a b : K) (ha : -1 < a) (hb : -1 < b) (Λ : Polynomial K →ₗ[K] K)
+    (hIBP : ∀ f : Polynomial K, Λ ((1 - Polynomial.X ^ 2) * Polynomial.derivative f
+        + (Polynomial.C b - Polynomial.C a - (Polynomial.C a + Polynomial.C b + 2) * Polynomial.X) * f) = 0)
+    (nodes weights : List K) (n : Nat)
+    (hroot : ∀ x ∈ nodes, (jacobiPoly a b n).eval x = 0)
+    (hint : ∀ r : Polynomial K, r.degree < (n : WithBot Nat) →
+      quadSum weights nodes (fun t => r.eval t) = Λ r)
+    (p : Polynomial K) (hp : p.degree < ((n + n : Nat) : WithBot Nat)) :
+    quadSum weights nodes (fun t => p.eval t) = Λ p :=
+  gauss_reduction nodes weights n (jacobiPoly a b n) (jacobiPoly_degree a b ha hb n) Λ hroot
+    (fun q hq => jacobiPoly_orth_degree a b ha hb Λ hIBP n q hq) hint p hp
+
+/-- non-vacuity of the premises: `a = b = 0` (uniform law), one node `0` (the root of `P₁ = X`),
+    weight `1` -/
+example : (jacobiPoly (0 : ℚ) 0 1).eval 0 = 0 ∧
+    (∀ r : Polynomial ℚ, r.degree < ((1 : Nat) : WithBot Nat) →
+      quadSum [(1 : ℚ)] [0] (fun t => r.eval t) = jacFunctional 0 0 r) := by
+  constructor
+  · simp [jacobiPoly]
+  · intro r hr
+    have hC : r = Polynomial.C (r.coeff 0) := by
+      apply Polynomial.eq_C_of_degree_le_zero
+      have : r.degree < 1 := by simpa using hr
+      exact Nat.WithBot.lt_one_iff_le_zero.mp this
+    rw [hC, ← Polynomial.monomial_zero_left, jacFunctional_monomial]
+    simp [quadSum, dot, jacMoment]
 
 end QE.C08
